@@ -17,6 +17,9 @@ CLAIMED = {
  "C13": ("model_checking", "s6 C13", "Coordinate-wise independence is a TLC theorem on the grid; for every order and dimension 1..10 the D-dimensional recording is validated against the per-coordinate exact oracle and compared coordinate-wise with D one-dimensional recordings and a permuted one."),
  "C14": ("model_checking", "s6 C14", "The five transformation laws (coefficients, energy, energy gradients) are TLC theorems on the grid; recordings of a problem and its five transforms are compared with each other (bit-identical for shifts) and each with its own exact minimiser/energy/gradient."),
  "C18": ("exploration", "s6 C18", "Rounding cannot be modelled in TLA+; it is judged exactly: every defining-equation residual of a canonical corpus and of seeded random duration vectors with ratio <= 100 is evaluated in exact arithmetic by TLC on the recorded coefficient bits (tolerance 1e-3). Known finding F1 (septic, ratio >= ~70) is listed in known_findings.json."),
+ "C03": ("model_checking", "s6 C03", "The lookup algorithm is transcribed into TLA+ and checked by TLC against the half-open-interval definition for all breakpoint vectors, times, hints and hint histories on a lattice (3 broken twins rejected); the real class is driven through every route for thousands of (object, t, k, hint) cases and TLC validates identical bits, the exact value of the defined piece and the hint post-state."),
+ "C11": ("model_checking", "s6 C11", "TLC explores the PPolyND life cycle with both lazy caches modelled (no stale read reachable, 2 broken twins rejected) and generates one script per abstract transition; replayed on the real class, every evaluation must equal the exact value of the latest data of that object; spline objects are rebuilt after evaluation and evaluated again."),
+ "C20": ("model_checking", "s6 C20", "The sequence contract is model-checked over an integer lattice (broken twin rejected); recorded time sequences (incl. steps that nearly divide the interval), trajectory lengths, batch evaluations and factory objects are validated exactly on the logged bits."),
 }
 PENDING = {}
 checks = []
